@@ -378,7 +378,9 @@ func c01Stream(addr string, paths []c01Path, wd time.Duration) map[string][]byte
 			reqs := []wire.Req{{Op: op, Path: pa.p}}
 			switch op {
 			case wire.OpOpen:
-				reqs = append(reqs, wire.Read(4096, 0))
+				// sector 0 and the first 64 bytes of sector 1: in a generated PS3 image the rest of
+				// sector 1 is random filler, which legitimately differs between two opens
+				reqs = append(reqs, wire.Read(2048, 0), wire.Read(64, 2048))
 			case wire.OpOpenDir:
 				reqs = append(reqs, wire.Bare(wire.OpReadDir))
 			}
